@@ -68,7 +68,18 @@ class Gen:
 
     def poison(self):
         self.features.add("poison-in-untaken")
-        return self.rnd.choice(["${U1}", "$U2", "$(nosuchfun,x)", "$(eq,a)", "${U1:-${U2}}", "$(not)", "$(get-tool-env,nope,X)"])
+        p = self.rnd.choice(["${U1}", "$U2", "$(nosuchfun,x)", "$(eq,a)", "${U1:-${U2}}", "$(not)", "$(get-tool-env,nope,X)"])
+        k = self.rnd.random()
+        if k < 0.25:
+            self.features.add("poison-in-dq")
+            return '"' + p + '"'
+        if k < 0.40:
+            self.features.add("poison-in-funarg")
+            return "$(strip," + self.rnd.choice(['"%s"', "%s", "'x'%s"]) % p + ")"
+        if k < 0.50:
+            self.features.add("poison-in-nested-word")
+            return "${A:+" + p + "}"
+        return p
 
     # --- strings ----------------------------------------------------------------------
     def string(self, depth, delims, allow_error=False):
@@ -250,6 +261,18 @@ class Gen:
             return it, ft, v, op
         op = rnd.choice(["==", "!=", "<", "<=", ">", ">="])
         (li, lf, lv), (ri, rf, rv) = self.str_operand(), self.str_operand()
+        if rnd.random() < 0.4:
+            # same value, different rendering: makes (in)equality sensitive to every character of the value
+            self.features.add("expr:same-value-other-rendering")
+            rv = lv
+            if "'" not in lv and "\n" not in lv and rnd.random() < 0.6:
+                ri, rf = "'" + lv + "'", self.render_value(lv, ",)")
+            else:
+                self.no_newline = True
+                t = "".join(("\\" + c) if (c in SPECIAL or rnd.random() < 0.2) else c for c in lv.replace("\n", "n"))
+                self.no_newline = False
+                rv = lv.replace("\n", "n")
+                ri, rf = '"' + t.replace("\\", "\\\\").replace('"', '\\"') + '"', '"' + t + '"'
         self.features.add("bool:" + op)
         v = {"==": lv == rv, "!=": lv != rv, "<": lv < rv, "<=": lv <= rv, ">": lv > rv, ">=": lv >= rv}[op]
         ft = None
